@@ -21,7 +21,7 @@ RULE = ('cases = corpus + random, three kinds: (range) get_first_range(header, m
         'ombott.static_file on a real temporary file of length 0..40 (one case: streaming-buffer size + 5) with chosen '
         'mtime, GET/HEAD, Range headers from the RFC 7233 grammar (a-b, a-, -n, lists, leading zeros, values around the '
         'length) and near misses (-0, reversed, 1-2-3, xbytes=, items=, spaces, +1, 1_0, unicode spaces, superscript/circled digits that str.isdigit accepts and int() rejects, 4300/4301 '
-        'digits, junk), If-Modified-Since dates before/equal/after the mtime in three formats, under several local time zones of the server process (TZ + tzset: UTC, whole-hour, half-hour and DST zones; the oracle knows the instant it generated and does not use parse_date) (mtimes include 0, 1, 2: the epoch date parses to 0), with parameters, empty '
+        'digits, junk), If-Modified-Since dates before/equal/after the mtime in three formats, under several local time zones of the server process (TZ + tzset: UTC, whole-hour, half-hour and DST zones; the oracle knows the instant it generated and does not use parse_date) (mtimes include 0, 1, 2: the epoch date parses to 0; mtimes and dates after the server clock), with parameters, empty '
         'and garbage.  thorough adds every first range spec over numbers {"",0,1,L-1,L,L+1} x lengths 0..6 and every '
         '(length, offset, n, buffer) <= 7 for the iterator (exhaustive).  non-trivial = a Range header that reaches the '
         'numeric cases, an iterator run with >= 2 chunks, or a conditional request with a parsed date; distinct by case content')
@@ -192,6 +192,12 @@ def corpus():
         pr('p.bin', mimetype='text/x'), pr('p.bin', mimetype='text/x; charset=foo'), pr('p.bin', mimetype='text/charset'),
         pr('p.bin', mimetype='TEXT/x'), pr('p.bin', mimetype='application/json'), pr('p.bin', mimetype=None),
         pr('p.bin', mimetype=''), pr('p.txt', mimetype='text/a\nb'), pr('p.txt', charset='u\r8'), pr('p.css', charset='x y'),
+        # the server clock is not part of the comparison (seeded change C17/12): dates after "now", files dated in the future
+        st(d10, ims='rfc1123', delta=10 * 365 * 86400), st(d10, ims='asctime', delta=40 * 365 * 86400),
+        st(d10, mtime=2000000000, ims='rfc1123', delta=0), st(d10, mtime=2000000000, ims='rfc1123', delta=1),
+        st(d10, mtime=2000000000, ims='rfc1123', delta=-1), st(d10, mtime=4000000000, ims='rfc1123', delta=0),
+        st(d10, mtime=2000000000, ims='rfc850', delta=86400, method='HEAD'), st(d10, mtime=2000000000, ims='asctime', delta=0, rng='bytes=0-3'),
+        st(d10, mtime=2000000000, ims='rfc1123', delta=0, via='app'), st(d10, mtime=1700000000, ims='rfc1123', delta=-1, tz='MSK-3'),
         st(d10, ims=''),                               # F20: an empty If-Modified-Since header crashed (TypeError)
         st(d10, ims='', rng='bytes=0-3'), st(d10, ims='garbage'), st(d10, ims=' ; x'), st(d10, ims=';'), st(d10, ims=' '),
         st(d10, ims='Thu, 01 Jan 2099 00:00:00 GMT'), st(d10, ims='Thu, 32 Jan 2099 00:00:00 GMT'),
@@ -304,7 +310,10 @@ def gen(rng, n):
                 ims = rng.choice(['', ' ', ';', 'garbage', 'Thu, 01 Jan 2099 00:00:00 GMT', 'Thu, 01 Jan 1980 00:00:00 GMT',
                                   'Thu, 01 Jan 2099 00:00:00 +0100', '01 Jan 2099', 'Thu, 01 Jan 2099 25:00:00 GMT', '1700000000',
                                   'Thu, 01 Jan 2099 00:00:00 GMT; x', '; Thu, 01 Jan 2099 00:00:00 GMT', '\xa0Thu, 01 Jan 2099 00:00:00 GMT\x85'])
-            mtime = rng.choice([1700000000, 0, 0, 1, 2, 60, 86400 * 365, 1700000000 + rng.randrange(10 ** 6)])
+            mtime = rng.choice([1700000000, 0, 0, 1, 2, 60, 86400 * 365, 1700000000 + rng.randrange(10 ** 6),
+                                2000000000, 2000000000 + rng.randrange(10 ** 6), 4000000000])   # the last three: after the server clock
+            if delta is not None and rng.random() < 0.25:
+                delta = rng.choice([10 * 365 * 86400, 40 * 365 * 86400, 365 * 86400])            # far later than the file
             if delta is not None and mtime < 100:
                 delta = rng.choice([0, 0, 1, -1, -mtime, 60, 86400])   # dates at and around the epoch
             frac = rng.choice([0, 0, 1, 500000000, 999999999])
